@@ -302,7 +302,7 @@ def c05_limits(spec, obs, sc=0):
 
     def check(name, lim, pred_res, pred_task):
         nonlocal binding
-        for kind, val in (lim or {}).items():
+        for kind, val in ((lim or {}).items() if isinstance(lim or {}, dict) else lim):
             only = None
             if isinstance(val, tuple):
                 val, only = val
